@@ -352,7 +352,7 @@ func (a *c06Artifact) render(schemaJSON string, blocks []c06Block, stale map[int
 // ---------------------------------------------------------------------------
 // Replacement classes
 
-var varClasses = []string{"neg1", "negbig", "zero", "one", "maxi32", "maxi32+1", "mini32-1", "maxi64", "mini64", "overflow10", "varint11", "unterminated", "plus1", "minus1", "2^20", "2^40", "negate"}
+var varClasses = []string{"neg1", "negbig", "zero", "one", "maxi32", "maxi32+1", "mini32-1", "maxi64", "mini64", "overflow10", "varint11", "unterminated", "plus1", "minus1", "2^20", "2^40", "negate", "pairbig"}
 var bodyClasses = []string{"random", "truncate", "timestamp"}
 
 func isVarSite(kind string) bool {
@@ -416,6 +416,29 @@ func applyField(payload []byte, s ref.Site, f C06Fault) ([]byte, string) {
 	old := payload[s.Off : s.Off+s.Len]
 	var repl []byte
 	class := f.Class
+	if class == "pairbig" {
+		// Two cooperating fields: a sized block's count AND its byte size are
+		// both rewritten to the same large value (each alone is bounded by the
+		// other in a careful decoder). On any other site: a plain large value.
+		n := int64(1) << uint(20+f.Val%8)
+		if s.Kind == "arr-count" || s.Kind == "map-count" {
+			rest := payload[s.Off+s.Len:]
+			d := &ref.Dec{Buf: rest}
+			if cur, err := (&ref.Dec{Buf: old}).Decode(ref.Prim("long")); err == nil && cur.(int64) < 0 {
+				if _, err := d.Decode(ref.Prim("long")); err == nil { // the byte size that follows
+					out := append([]byte{}, payload[:s.Off]...)
+					out = ref.AppendLong(out, -n)
+					out = ref.AppendLong(out, n)
+					out = append(out, rest[d.Pos:]...)
+					return out, fmt.Sprintf("%s+bsize@%s:=pairbig(2^%d)", s.Kind, s.Path, 20+f.Val%8)
+				}
+			}
+		}
+		out := append([]byte{}, payload[:s.Off]...)
+		out = ref.AppendLong(out, n)
+		out = append(out, payload[s.Off+s.Len:]...)
+		return out, fmt.Sprintf("%s@%s:=2^%d", s.Kind, s.Path, 20+f.Val%8)
+	}
 	if isVarSite(s.Kind) {
 		repl = varReplacement(class, old)
 	} else {
